@@ -41,6 +41,7 @@ pub fn c15_states(ctx: &Ctx, thorough: bool) -> Vec<(String, StateSpec)> {
         ("complete".into(), state(true, MetaSpec::Current, Complete)),
         ("other-version+complete".into(), state(true, MetaSpec::OtherVersion, Complete)),
         ("other-version+foreign".into(), state(true, MetaSpec::OtherVersionOtherHash, Foreign)),
+        ("other-version+other-schema".into(), state(true, MetaSpec::OtherVersionOtherHash, ForeignSchema)),
         ("other-data+foreign".into(), state(true, MetaSpec::OtherHash, Foreign)),
         ("meta-missing+complete".into(), state(true, MetaSpec::Absent, Complete)),
         ("meta-missing+foreign".into(), state(true, MetaSpec::Absent, Foreign)),
@@ -50,7 +51,6 @@ pub fn c15_states(ctx: &Ctx, thorough: bool) -> Vec<(String, StateSpec)> {
     ];
     let len = ctx.reference.meta_text.len();
     if thorough {
-        v.push(("other-version-same-hash+foreign".into(), state(true, MetaSpec::OtherVersion, Foreign)));
         v.push(("other-data+complete".into(), state(true, MetaSpec::OtherHash, Complete)));
         for b in 0..len {
             v.push((format!("meta-torn({b})+foreign"), state(true, MetaSpec::CurrentPrefix { bytes: b }, Foreign)));
